@@ -167,8 +167,8 @@ impl Prop for C20 {
   }
   fn legs(&self, _tier: Tier) -> Vec<Leg<Case>> {
     vec![
-      Leg { name: "one-edit and independent pairs", source: Cases::Generated(Box::new(strategy_pairs), 100_000, 3_000_000) },
-      Leg { name: "cross-process reproducibility (40 trees per case)", source: Cases::Generated(Box::new(strategy_repro), 16, 160) },
+      Leg { name: "one-edit and independent pairs", source: Cases::Generated(Box::new(strategy_pairs), 500_000, 6_000_000) },
+      Leg { name: "cross-process reproducibility (40 trees per case)", source: Cases::Generated(Box::new(strategy_repro), 32, 320) },
     ]
   }
   fn check(&self, case: &Case) -> CheckResult {
